@@ -13,6 +13,7 @@ import (
 	"fmt"
 	"os"
 	"reflect"
+	"regexp"
 	"sort"
 	"strings"
 	"time"
@@ -47,7 +48,8 @@ type FmtRes struct {
 	ComSrc    []string `json:"com_src"`
 	ComOut    []string `json:"com_out"`
 	Panic     string   `json:"panic"`
-	WatEqual  *bool    `json:"wat_equal"`
+	WatEqual  *bool    `json:"wat_equal"`      // byte-identical WAT
+	WatNormEq *bool    `json:"wat_norm_equal"` // identical after removing data segments and i32 constants (embedded source positions)
 	WatErrSrc string   `json:"wat_err_src"`
 	WatErrOut string   `json:"wat_err_out"`
 }
@@ -95,6 +97,24 @@ func parse(name, src string) (*ast.File, []string, error) {
 	return f, coms, nil
 }
 
+// the formatter sorts the import specs of a group by path: the trees are compared modulo that order
+func sortImports(f *ast.File) {
+	if f == nil {
+		return
+	}
+	for _, d := range f.Decls {
+		g, ok := d.(*ast.GenDecl)
+		if !ok || g.Tok != token.IMPORT {
+			continue
+		}
+		sort.SliceStable(g.Specs, func(i, j int) bool {
+			a, b := g.Specs[i].(*ast.ImportSpec), g.Specs[j].(*ast.ImportSpec)
+			return a.Path.Value < b.Path.Value
+		})
+	}
+	sort.SliceStable(f.Imports, func(i, j int) bool { return f.Imports[i].Path.Value < f.Imports[j].Path.Value })
+}
+
 func firstDiff(a, b string) string {
 	la, lb := strings.Split(a, "\n"), strings.Split(b, "\n")
 	for i := 0; i < len(la) && i < len(lb); i++ {
@@ -114,6 +134,7 @@ func fmtOne(c *FmtCase) (r FmtRes) {
 		}
 	}()
 	f0, c0, err := parse(c.Name, c.Src)
+	sortImports(f0)
 	if err != nil {
 		r.ParseSrc = err.Error()
 		return
@@ -137,6 +158,7 @@ func fmtOne(c *FmtCase) (r FmtRes) {
 		return
 	}
 	r.ComOut = c1
+	sortImports(f1)
 	d0, d1 := dump(f0), dump(f1)
 	r.AstEqual = d0 == d1
 	if !r.AstEqual {
@@ -153,8 +175,26 @@ func fmtOne(c *FmtCase) (r FmtRes) {
 		}
 		eq := bytes.Equal(w0, w1) && (e0 == nil) == (e1 == nil)
 		r.WatEqual = &eq
+		neq := eq || ((e0 == nil) == (e1 == nil) && normWat(w0) == normWat(w1))
+		r.WatNormEq = &neq
 	}
 	return
+}
+
+var reConst = regexp.MustCompile(`i32\.const -?\d+`)
+
+// the compiler embeds "file:line:col" strings for run-time panics in the data segment; their
+// lengths move every later data address, so data segments and i32 constants are masked
+func normWat(w []byte) string {
+	var o strings.Builder
+	for _, l := range strings.Split(string(w), "\n") {
+		if strings.HasPrefix(strings.TrimSpace(l), "(data ") {
+			continue
+		}
+		o.WriteString(reConst.ReplaceAllString(l, "i32.const N"))
+		o.WriteByte('\n')
+	}
+	return o.String()
 }
 
 func cmdFmt() {
